@@ -15,10 +15,14 @@ run_tier() {
   done
   echo "tier $1 done"
 }
+engine_tests() {
+  (cd /verif/checker && GOFLAGS=-mod=mod GOPROXY=off go test ./internal/... 2>&1 | tail -3) | grep -q "^FAIL\|--- FAIL" && { echo "engine tests failed"; fail=1; }
+  echo "engine tests done"
+}
 case $what in
-  quick) run_tier quick;;
+  quick) engine_tests; run_tier quick;;
   thorough) run_tier thorough;;
   refactors) tools/run_refactors.sh | grep -v CLEAN && fail=1;;
-  all) run_tier quick; run_tier thorough; tools/run_refactors.sh | grep -v CLEAN && fail=1;;
+  all) engine_tests; run_tier quick; run_tier thorough; tools/run_refactors.sh | grep -v CLEAN && fail=1;;
 esac
 exit $fail
